@@ -23,13 +23,14 @@
 EXTENDS Integers, Sequences, FiniteSets, TLC
 
 CONSTANTS T, S,          \* epochs, maximum number of candidate states per epoch
-          PCostIds, QCostIds,  \* cost values for observation / transition entries: c >= 0 = likelihood 2^-c, 99 = likelihood 0
+          PCostIds, QCostIds,  \* cost values for observation / transition entries: c in 0..49 = likelihood 2^-c, 50+k = likelihood 2^k, 99 = likelihood 0
           Mode           \* "mc" | "none"
 VARIABLES n, P, Q, ph
 vars == <<n, P, Q, ph>>
 
 C0 == <<0, 0>>                       \* likelihood 1
-CostOf(i) == IF i = 99 THEN <<1, 0>> ELSE <<0, i>>
+\* ids 0..49: likelihood 2^-i; 51..98: likelihood 2^(i-50) > 1 (unnormalised models, negative cost); 99: likelihood 0
+CostOf(i) == IF i = 99 THEN <<1, 0>> ELSE IF i > 50 THEN <<0, 50 - i>> ELSE <<0, i>>
 PCost == {CostOf(i) : i \in PCostIds}
 QCost == {CostOf(i) : i \in QCostIds}
 CAdd(a, b) == <<a[1] + b[1], a[2] + b[2]>>
